@@ -398,7 +398,8 @@ def main(prop, tier, seed, replay):
     if not new_fails and (broken or disagreements):
         # a proof obligation, a tie or the correspondence no longer checks, and the search over the explored
         # inputs found no input on which the implementation violates the property
-        dis_known = [d for d in disagreements if known_match(prop, d[0], "correspondence", known)]
+        dis_known = [d for d in disagreements if known_match(prop, d[0], "correspondence", known)
+                     or known_match(prop, d[0], d[3], known)]
         dis_new = [d for d in disagreements if d not in dis_known]
         if broken or dis_new:
             payload = {"property": prop, "broken_obligations": broken,
